@@ -400,4 +400,9 @@ def api_pools():
     b = HeapB(); x = b.var("x"); y = b.var("y"); s2 = b.kun("NthRoot", x, 2); s3 = b.kun("NthRoot", x, 3); tt = b.nary("Add", x, b.bun("Logarithm", y, q(2)))
     qq = b.nary("Multiply", s3, s3, s3)
     pool("roots", b, [s2, qq, tt], [P(x=4, y=1), P(x=-8, y=2), P(x=0, y=1), P(x=1, y=-1), P(x=1, y=0)], ["x", "y"])
+    # 8. a user-built n-ary node with a child whose simplification ENLARGES the domain (Power(x, 2) => NthPower(x, 2)), shared into a
+    #    product: if any simplification rewrote the user's own node in place, evaluation would stop raising where it must
+    b = HeapB(); x = b.var("x"); y = b.var("y"); w = b.var("w"); pw = b.bin("Power", x, b.const(2)); s = b.nary("Add", pw, y); z = b.nary("Multiply", s, w)
+    ad = b.nary("Add", b.nary("Add", x, y), w); ez = b.bun("Exponential", ad, q(2))
+    pool("inplace", b, [s, z, ez], [P(x=-3, y=1, w=2), P(x=3, y=1, w=2), P(x=0, y=0, w=1)], ["x", "y", "w"], switch=[{"r": z, "v": "w"}, {"r": ez, "v": "x"}])
     return pools
